@@ -53,6 +53,15 @@ func (q mQuote) String() string {
 func (q mQuote) lib() *bt.FeeQuote {
 	std := &bt.Fee{FeeType: bt.FeeTypeStandard, MiningFee: bt.FeeUnit{Satoshis: q.StdSat, Bytes: q.StdBytes}, RelayFee: bt.FeeUnit{Satoshis: q.StdSat, Bytes: q.StdBytes}}
 	data := &bt.Fee{FeeType: bt.FeeTypeData, MiningFee: bt.FeeUnit{Satoshis: q.DataSat, Bytes: q.DataBytes}, RelayFee: bt.FeeUnit{Satoshis: q.DataSat, Bytes: q.DataBytes}}
+	// the FeeType field of a Fee is an optional label; the slot a fee is filed
+	// under is the AddQuote / UpdateMinerFees argument. Labels: matching, absent,
+	// or left over from the fee the value was copied from.
+	switch (q.StdSat + q.DataBytes) % 3 {
+	case 1:
+		std.FeeType, data.FeeType = "", ""
+	case 2:
+		std.FeeType, data.FeeType = bt.FeeTypeData, bt.FeeTypeStandard
+	}
 	plain := func() *bt.FeeQuote {
 		return bt.NewFeeQuote().AddQuote(bt.FeeTypeStandard, std).AddQuote(bt.FeeTypeData, data)
 	}
